@@ -1,6 +1,7 @@
-"""Specification side of the reader comparison: the wowm containers in the closed syntax with the variable ids of tools/rust_codec.py
-(`vid(name)`), every role erased (readers do not validate constants) — otherwise exactly tools/corpus.py.  The per-enumerator
-expansion of conditionals over an enum (what the generated `match` looks like) is done by the Lean driver (`Sem.expandMs`), not here."""
+"""Specification side of the reader / writer comparison: the wowm containers in the closed syntax with the variable ids of
+tools/rust_codec.py (`vid(name)`; the count field of a counted array is named `len:<array>`, as the writers see it) — otherwise exactly
+tools/corpus.py.  The per-enumerator expansion of conditionals over an enum (what the generated `match` looks like) and the erasure of
+roles for the reader comparison are done by the Lean driver (`Sem.expandMs`, `Sem.eraseMs`), not here."""
 import os, sys
 sys.path.insert(0, os.path.dirname(__file__))
 import wowm
@@ -8,21 +9,58 @@ from corpus import Resolver, Unsupported
 from rust_codec import vid
 
 
+def count_renames(ms, out=None):
+    """writer side: the count field of a counted array is written as `xs.len()` — its id is derived from the array's name"""
+    out = {} if out is None else out
+    for m in ms:
+        if m["k"] == "field" and m["ty"]["t"] == "array" and m["ty"]["size"][0] == "var":
+            out.setdefault(m["ty"]["size"][1], "len:" + m["name"])
+        elif m["k"] == "if":
+            for sub in [m["members"]] + [e["members"] for e in m["elseifs"]] + ([m["else"]] if m["else"] is not None else []):
+                count_renames(sub, out)
+        elif m["k"] == "optional":
+            count_renames(m["members"], out)
+    return out
+
+
 class NameResolver(Resolver):
+    writer = True         # keep the roles (constants, self.size) and name count fields after their array (`len:<array>`)
+
     def members(self, ms, target, scope, counter, root=None):
+        if root is None and self.writer:
+            ren = count_renames(ms)
+            self.ren_stack = getattr(self, "ren_stack", []) + [ren]
+            try:
+                return self.members(ms, target, scope, counter, ms)
+            finally:
+                self.ren_stack.pop()
         root = root if root is not None else ms
+        ren = self.ren_stack[-1] if (self.writer and getattr(self, "ren_stack", None)) else {}
         out = []
         for m in ms:
             if m["k"] == "field":
-                v = vid(m["name"])
+                v = vid(ren.get(m["name"], m["name"]))
                 t = self.ty(m["ty"], target, scope)
                 scope[m["name"]] = v
                 if any(k == "compressed" for k, _ in m["tags"]):
                     raise Unsupported("compressed member")
+                role = ["p"]
+                if self.writer:
+                    if m["value"] == "self.size":
+                        role = ["s"]
+                    elif m["value"] is not None:
+                        c = wowm.parse_int(m["value"])
+                        if c is None:
+                            d = self.definer_of_var(root, m["name"], target)
+                            vals = {f["name"]: f["int"] for f in d["fields"]} if d else {}
+                            if m["value"] not in vals:
+                                raise Unsupported(f"constant {m['value']} unreadable")
+                            c = vals[m["value"]]
+                        role = ["c", str(c)]
                 if t[0] == "arre":
                     out += ["fe", str(v)] + t[1:]
                 else:
-                    out += ["f", str(v), "p"] + t
+                    out += ["f", str(v)] + role + t
             elif m["k"] == "if":
                 v0, c0 = self.cond(m["conds"], root, target, scope)
                 branches = [(c0, m["members"])]
